@@ -606,6 +606,13 @@ fn run_isolated(cfg: &MCfg, ctx: &Ctx, i: usize) -> Report {
             r.violation(format!("{}:no-result", cfg.tag()), format!("[mid-scale / wide SDD, {}] the process executing this configuration's library operations was ended by signal {} (stack overflow or abort inside the library): {}", cfg.short(), sig, msg), json!({"kind": "sdd_mid", "cfg": cfg.json()}));
             r
         }
+        Err((Some(-1), msg)) => {
+            // stopped by the parent at the end of the wall-clock budget: a cap, never a verdict
+            let mut r = Report::default();
+            r.cap(format!("a mid-scale / wide SDD configuration was stopped at the wall-clock budget: {}", msg));
+            r.add_extra("sdd_mid_configurations_stopped_at_the_budget", 1);
+            r
+        }
         Err((_, msg)) => {
             let mut r = Report::default();
             r.exhaustive = true;
